@@ -5,8 +5,8 @@ CONSTANTS
   MaxFields = 0
   MaxLen = 4
   Salts = {0, 1}
-  SetVals = {0, 2}
-  MaxKw = 3
+  SetVals = {2}
+  MaxKw = 2
 INVARIANT TypeOK
 INVARIANT HashTableTotal
 INVARIANT BindConflictFree
